@@ -22,6 +22,7 @@ type World struct {
 	Contracts     map[string]*Contract
 	CheckOverflow bool
 	JSONViews bool // ghost JSON writer views are in use (jsonw.go)
+	InlineNamed func(f *ssa.Function) bool // module functions unfolded at their call sites (family helpers)
 	InlineClosures bool // unfold calls of acyclic lexically nested closures
 	InlineSmall   bool
 
